@@ -6,12 +6,15 @@
    Also mechanised: the bookkeeping of tomography.run — job index -> (sequence, trajectory), aggregation per sequence, placement in the
    tensor through the SHUFFLED sequence list: every tensor entry is the average over the trajectories of its own tuple, each run counted
    once, whatever the shuffle.
+   Also mechanised (LinAlg/Multilinear.v): for a process that is expanded by the probe family in every slot, the dual-frame contraction
+   of the measured tensor equals the true outcome for every sequence of held-out operations, of any length.
    PARTIAL — not mechanised: the dual frame computed by numpy's pinv, and that the simulated segments realise the exact evolution
    (C05); tied numerically. *)
 From Coq Require Import Reals List.
 From Coquelicot Require Import Coquelicot.
 From Yaqs Require Import Base.CMat Model.Tomo Proofs.TomoP Model.TomoAgg Proofs.TomoAggP.
 From Coq Require Import QArith Permutation.
+From Yaqs Require LinAlg.Multilinear.
 
 Theorem C17_probe_states_complete : forall a b c d : C,
   comb (coef_zeros a b c d) (coef_ones a b c d) (coef_plus a b c d) (coef_yplus a b c d) = mat2 a b c d.
@@ -34,3 +37,13 @@ Theorem C17_shuffle_irrelevant : forall seqs seqs' ntraj f sigma, (0 < ntraj)%na
   tensor_at seqs ntraj f sigma = tensor_at seqs' ntraj f sigma.
 Proof. exact shuffle_irrelevant. Qed.
 Print Assumptions C17_shuffle_irrelevant.
+
+(* prediction = contraction: T is the true process (outcome of a sequence of operations), b the probe family, c its coefficient
+   functionals; "expanding" = linearity of T in each slot + completeness of the probes.  Then the contraction of the tensor of probe
+   outcomes with the coefficients of ANY operations xs — not only the probes — is T xs. *)
+Theorem C17_held_out_prediction_is_contraction :
+  forall (K V W : Type) (wzero : W) (wadd : W -> W -> W) (scale : K -> W -> W) (n : nat) (b : nat -> V) (c : nat -> V -> K) (T : list V -> W),
+  (forall pre x post, T (pre ++ x :: post) = Multilinear.wsum W wzero wadd n (fun j => scale (c j x) (T (pre ++ b j :: post)))) ->
+  forall xs, T xs = Multilinear.contract K V W wzero wadd scale n b c T nil xs.
+Proof. exact Multilinear.held_out_prediction. Qed.
+Print Assumptions C17_held_out_prediction_is_contraction.
